@@ -957,6 +957,14 @@ func main() {
 			r := c.Rng(a.Seed, 200000+i)
 			hs = append(hs, History{ID: 200000 + i, Kind: "system", System: genSystem(r, i)})
 		}
+		// timed family: real workers behind the real dispatcher, chatty peer
+		ntimed := 6
+		if a.Tier == "thorough" {
+			ntimed = 24
+		}
+		for i := 0; i < ntimed; i++ {
+			hs = append(hs, History{ID: 300000 + i, Kind: "system", System: genTimed(i)})
+		}
 	}
 
 	var wg sync.WaitGroup
